@@ -56,6 +56,11 @@ def peers_for(tb, tier, rnd):
                   key=['rsa-sha2-512', 'rsa-sha2-256', 'ssh-ed25519'], enc=['chacha20-poly1305@openssh.com', 'aes128-ctr', 'aes128-cbc'],
                   mac=['hmac-sha2-256-etm@openssh.com', 'hmac-sha1'], hk={'rsa-sha2-512': (2048, '', 0), 'rsa-sha2-256': (2048, '', 0)},
                   dh={'diffie-hellman-group-exchange-sha256': (2048, False)}))
+    # the group-exchange size measured below, at and above the fallback size: the recommendation follows the rating of the line (a small
+    # modulus is a failure to act on, whatever the software; only the 2048-bit OpenSSH fallback is nobody's to change)
+    for bits in (1024, 1536, 3072, 4096):
+        P.append(dict(kex=['curve25519-sha256', 'diffie-hellman-group-exchange-sha256'], key=['ssh-ed25519'], enc=['aes256-ctr'], mac=['hmac-sha2-256-etm@openssh.com'],
+                      dh={'diffie-hellman-group-exchange-sha256': (bits, False)}))
     P.append(dict(kex=['sntrup761x25519-sha512@openssh.com', 'curve25519-sha256', 'kex-strict-s-v00@openssh.com', 'ext-info-s'],
                   key=['ssh-ed25519'], enc=['aes256-gcm@openssh.com', 'aes128-gcm@openssh.com'], mac=['hmac-sha2-512-etm@openssh.com']))
     P.append(dict(kex=['gss-gex-sha1-toWM5Slw5Ew8Mqkay+al2g==', 'gss-group14-sha256-toWM5Slw5Ew8Mqkay+al2g==', 'curve25519-sha256@libssh.org'],
